@@ -70,6 +70,9 @@ def random_case(rng, tier):
     n_procs = rng.randint(2, 3)
     progs = [programs.gen_process_program(rng, PROGRAM_CFG) if rng.random() < 0.6 else wcprograms.gen_outline(rng)
              for _ in range(n_procs)]
+    for prog in progs:
+        if prog.get('kind') != 'workchain' and rng.random() < 0.2:
+            prog['codec'] = True  # the class stores inputs/outputs in a representation of its own
     faults = rng.random() < 0.25
     ops = []
     saved = []
